@@ -195,14 +195,14 @@ theorem uniformFill_total {count : Nat} {free : Grid} {chosen : List Nat}
 
 /-! ### the half split -/
 
-theorem cell_halfParts (d : Dir) (nrow ncol : Nat) (mask : Grid) (k : Nat) :
-    cell (halfParts d nrow ncol mask).1 k = (cell mask k && inputSide d nrow ncol (k / ncol) (k % ncol)) ∧
-    cell (halfParts d nrow ncol mask).2 k = (cell mask k && !inputSide d nrow ncol (k / ncol) (k % ncol)) := by
+theorem cell_halfParts (d : Dir) (xs ys : List Int) (nrow ncol : Nat) (mask : Grid) (k : Nat) :
+    cell (halfParts d xs ys nrow ncol mask).1 k = (cell mask k && inputSideC d xs ys nrow ncol (k / ncol) (k % ncol)) ∧
+    cell (halfParts d xs ys nrow ncol mask).2 k = (cell mask k && !inputSideC d xs ys nrow ncol (k / ncol) (k % ncol)) := by
   unfold halfParts
   exact ⟨cell_mapIdx mask _ (fun _ => by simp) k, cell_mapIdx mask _ (fun _ => by simp) k⟩
 
-theorem length_halfParts (d : Dir) (nrow ncol : Nat) (mask : Grid) :
-    (halfParts d nrow ncol mask).1.length = mask.length ∧ (halfParts d nrow ncol mask).2.length = mask.length := by
+theorem length_halfParts (d : Dir) (xs ys : List Int) (nrow ncol : Nat) (mask : Grid) :
+    (halfParts d xs ys nrow ncol mask).1.length = mask.length ∧ (halfParts d xs ys nrow ncol mask).2.length = mask.length := by
   simp [halfParts]
 
 /-! ### k-spaces -/
@@ -213,5 +213,26 @@ theorem getD_applyMaskK (cells : Nat) (m : Grid) (k : List Int) (idx : Nat) :
   by_cases h : idx < k.length
   · simp [List.getD_eq_getElem?_getD, h]
   · simp [List.getD_eq_getElem?_getD, Nat.le_of_not_lt h]
+
+theorem length_applyMaskK (cells : Nat) (m : Grid) (k : List Int) : (applyMaskK cells m k).length = k.length := by
+  simp [applyMaskK]
+
+theorem getD_zipWith_add (a b : List Int) (h : a.length = b.length) (idx : Nat) :
+    (List.zipWith (fun x y => x + y) a b).getD idx 0 = a.getD idx 0 + b.getD idx 0 := by
+  by_cases hi : idx < a.length
+  · have hb : idx < b.length := by omega
+    have hz : idx < (List.zipWith (fun x y => x + y) a b).length := by simp; omega
+    simp only [List.getD_eq_getElem?_getD, List.getElem?_eq_getElem hi, List.getElem?_eq_getElem hb,
+      List.getElem?_eq_getElem hz, Option.getD_some, List.getElem_zipWith]
+  · have hb : b.length ≤ idx := by omega
+    have ha : a.length ≤ idx := by omega
+    have hz : (List.zipWith (fun x y => x + y) a b).length ≤ idx := by simp; omega
+    simp only [List.getD_eq_getElem?_getD, List.getElem?_eq_none ha, List.getElem?_eq_none hb,
+      List.getElem?_eq_none hz, Option.getD_none]
+    rfl
+
+theorem cell_gNot (g : Grid) (k : Nat) (h : k < g.length) : cell (gNot g) k = !cell g k := by
+  rw [cell_eq_getElem _ k (by simpa [gNot] using h), cell_eq_getElem g k h]
+  simp [gNot]
 
 end DirectVerif.C11
